@@ -26,7 +26,7 @@ RULE = (
 ASSUMPTIONS = ["dense reference; forced measurement settings so that compile is a function",
                "compile(circuit, initial_state=s) aliasing s is outside the statement and not asserted"]
 REQUIRED_CLASSES = {"interleave": ["rewrite:group", "rewrite:unwrap", "rewrite:rmid", "rewrite:copy", "rewrite:assign_empty",
-                                   "call:assign_noise", "call:mc", "call:solve", "call:hybrid", "call:evo", "call:alt", "call:copy_grow", "call:cost_metrics", "noisy_compile_twice:two_sided_noise", "call:compile", "call:metric", "reuse_after_noisy_copy", "rewrite:noisy_copy"]}
+                                   "call:assign_noise", "call:mc", "call:solve", "call:hybrid", "call:evo", "call:alt", "call:copy_grow", "working_copy_built_with_replace_op", "call:cost_metrics", "noisy_compile_twice:two_sided_noise", "call:compile", "call:metric", "reuse_after_noisy_copy", "rewrite:noisy_copy"]}
 
 
 def compilers():
@@ -142,10 +142,25 @@ def check(case, sub="interleave"):
     icls = "measuring" if any(gc.measuring(d) for d in desc["ops"]) else "unitary"
     refs = {0: ref_state(desc, 0), 1: ref_state(desc, 1)}
     C = gc.build(desc)
-    W = guarded(sub, icls, C.copy)
+    if case.get("placeholders"):
+        # the working circuit is built with Identity placeholders for some one-qubit gates, which are then put in place with
+        # replace_op: it is the same program, and every later rewrite (e.g. remove_identity) must treat it as such
+        idx = [i for i, d in enumerate(desc["ops"]) if d[0] in ("H", "P", "X", "Y", "Z", "Pdag") and (i + case.get("seed", 0)) % 2 == 0]
+        ops_ph = [([("I", d[1], d[2])] if i in idx else [d])[0] for i, d in enumerate(desc["ops"])]
+        ops_ph = [list(x) for x in ops_ph]
+        W, objs_w = gc.build(dict(desc, ops=ops_ph), return_ops=True)
+        for i in idx:
+            nid = [x for x in W.dag.nodes if W.dag.nodes[x].get("op") is objs_w[i]]
+            guarded(sub, icls, W.replace_op, nid[0], gc.make_op(desc["ops"][i]))
+        if idx:
+            pass
+    else:
+        W = guarded(sub, icls, C.copy)
     qasm0 = guarded(sub, icls, C.to_openqasm)
     wires0 = wires_of(C)
     cl = set(gc.classes_of(desc))
+    if case.get("placeholders"):
+        cl.add("working_copy_built_with_replace_op")
     # target for solver / metric calls
     tg = case.get("target") or {"n": 3, "mask": 3}
     tv = rg.graph_state(tg["n"], tg["mask"])
@@ -435,6 +450,7 @@ def strat(tier):
         "target": gg.st_graph(2, 4, connected=True),
         "target_rep": st.sampled_from(["s", "dm", "g"]),
         "seed": st.integers(0, 10**6),
+        "placeholders": st.sampled_from([False, False, True]),
     })
 
 
